@@ -1,4 +1,5 @@
 //! Common library of the runtime-monitoring harness (see /verif/DESIGN.md section 2).
+pub mod c18gen;
 pub mod chaos;
 pub mod civil;
 pub mod exec;
@@ -7,6 +8,9 @@ pub mod known;
 pub mod rec;
 pub mod rng;
 pub mod run;
+pub mod sanimpl;
+pub mod sanlayer;
+pub mod scripted_writer;
 pub mod stamps;
 
 pub use rng::Rng;
